@@ -2,7 +2,10 @@
 (* C27 -- sticky lifecycle: opt-in, drain, client token tracking.
 
    One client talking to one worker through a session view (every request carries VGI-Session-Accept and the
-   view's token, every response is captured) or through the plain connection (no opt-in, no token).
+   view's token, every response is captured), through the plain connection (no opt-in, no token), or as a raw
+   request that presents the view's token WITHOUT the opt-in header and ignores the response's session headers
+   ("tokenonly": a non-tracking client or a header-stripping proxy).  Once such a request has changed the session
+   behind the view's back, ViewExact is no longer claimed for that view (tainted).
    A request runs a method script: a sequence over  "o" ctx.open_session()  "c" ctx.close_session()
    "u" use ctx.session (fails when none is bound)  "n" nothing.  Sessions are numbered in opening order.
 
@@ -19,29 +22,31 @@ EXTENDS StickyLifeCore
 
 CONSTANTS MaxReq, Scripts
 
-VARIABLES live, view, draining, n, nextId, last
-vars == <<live, view, draining, n, nextId, last>>
+VARIABLES live, view, draining, n, nextId, last, tainted
+vars == <<live, view, draining, n, nextId, last, tainted>>
 
-Init == /\ live = {} /\ view = 0 /\ draining = FALSE /\ n = 0 /\ nextId = 1
+Init == /\ live = {} /\ view = 0 /\ draining = FALSE /\ n = 0 /\ nextId = 1 /\ tainted = FALSE
         /\ last = [script |-> <<>>, via |-> "none", out |-> "none", opened |-> 0, accept |-> FALSE, drain |-> FALSE, bound |-> 0]
 
 Req(script, via) ==
   /\ n < MaxReq
   /\ LET accept == via = "view"
-         tok == IF via = "view" THEN view ELSE 0
+         tok == IF via \in {"view", "tokenonly"} THEN view ELSE 0
+         lost == tok # 0 /\ tok \notin live          \* a token whose session is gone: session_lost, nothing runs
          st0 == [l |-> live, b |-> tok, mint |-> 0, closed |-> FALSE, err |-> "ok", id |-> nextId, opened |-> 0]
-         st == Exec(st0, script, accept, draining)
+         st == IF lost THEN [st0 EXCEPT !.err = "session_lost"] ELSE Exec(st0, script, accept, draining)
      IN /\ live' = st.l /\ nextId' = st.id
         /\ view' = IF via = "view" THEN Capture(view, st.mint, st.closed) ELSE view
         /\ last' = [script |-> script, via |-> via, out |-> st.err, opened |-> st.opened, accept |-> accept,
-                    drain |-> draining, bound |-> tok]
+                    drain |-> draining, bound |-> IF lost THEN 0 ELSE tok]
+        /\ tainted' = (tainted \/ (via = "tokenonly" /\ st.l # live))
   /\ n' = n + 1 /\ UNCHANGED draining
-Drain == /\ draining' = ~draining /\ n < MaxReq /\ UNCHANGED <<live, view, n, nextId, last>>
-Next == (\E s \in Scripts, via \in {"view", "plain"} : Req(s, via)) \/ Drain
+Drain == /\ draining' = ~draining /\ n < MaxReq /\ UNCHANGED <<live, view, n, nextId, last, tainted>>
+Next == (\E s \in Scripts, via \in {"view", "plain", "tokenonly"} : Req(s, via)) \/ Drain
 Spec == Init /\ [][Next]_vars
 
 \* ------------------------------------------------------------------ property clauses
-ViewExact == live = (IF view = 0 THEN {} ELSE {view})          \* exactly the live session; nothing orphaned
+ViewExact == tainted \/ live = (IF view = 0 THEN {} ELSE {view})          \* exactly the live session; nothing orphaned
 OpenOnlyWithOptIn == last.opened > 0 => last.accept
 NeverOpenWhileDraining == last.opened > 0 => ~last.drain
 DrainErrorIsTyped == (last.out = "server_draining") => last.drain
